@@ -26,7 +26,7 @@ def run(ctx):
                 "(GetMetric x4 vs Shutdown, 50 rounds each); evaluations = calls issued; a case is one scenario run")
     ctx.assumptions = ["data races are observed by the Go race detector on the executed interleavings only",
                        "a race report counts when one of the two racing accesses is in ipfs-cluster source",
-                       "CRDT batching queue under concurrency is exercised by the C02 check"]
+                       "the CRDT batching queue is stressed with the C02 rig (TestStressConcurrent: 7 callers x 60 calls, Shutdown mid-burst)"]
     # SPEC
     ctx.tlc("Concurrency.tla", "Concurrency_alerts.cfg", workers=4, timeout=600)
     ctx.tlc("Concurrency.tla", "Concurrency_informer.cfg", workers=2, timeout=600)
@@ -69,6 +69,28 @@ def run(ctx):
     ctx.absorb(dr, "c18_conc", "TestDriver")
     if not os.path.exists(trace):
         raise vcheck.Infra("no observations recorded")
+    # the CRDT batching queue under concurrent callers and Shutdown (rig of the C02 check)
+    trace2 = os.path.join(ctx.work, "c18_crdt.ndjson")
+    dr2 = ctx.go_test("c02_crdt", run="TestStressConcurrent$", env={"VERIF_TRACE": trace2}, timeout=1800, race=True,
+                      count=False, allow_fail=True)
+    for key, text in race_reports(dr2.stdout, ctx.repo).items():
+        ctx.violation("C18:race:" + key, "data race reported by the race detector in ipfs-cluster code (crdt stress)",
+                      {"report": text[:4000]})
+    if dr2.rc != 0 and not race_reports(dr2.stdout, ctx.repo):
+        if "panic:" in dr2.stdout or "fatal error:" in dr2.stdout:
+            head = dr2.stdout.split("\n\ngoroutine ")[0:2]
+            if "verifharness" in "\n".join(head).split("created by")[0]:
+                print(dr2.stdout[-3000:])
+                raise vcheck.Infra("the crdt stress driver itself crashed")
+            ctx.violation("C18:crash:crdt-stress", "the process crashed (unrecoverable panic) in the crdt batching stress",
+                          {"output_head": dr2.stdout[:3000]})
+        else:
+            print(dr2.stdout[-3000:])
+            raise vcheck.Infra("crdt stress driver failed (rc=%d)" % dr2.rc)
+    ctx.absorb(dr2, "c02_crdt", "TestStressConcurrent")
+    if os.path.exists(trace2):
+        with open(trace, "a") as f:
+            f.write(open(trace2).read())
     verdict = os.path.join(ctx.work, "c18_verdict.ndjson")
     r = tla.run_tlc(ctx.specdir(), "ConcurrencyObs.tla", "ConcurrencyObs.cfg", workers=1, timeout=1200, heap="8g",
                     env_extra={"TRACE_FILE": trace, "VERDICT_FILE": verdict})
